@@ -274,6 +274,25 @@ where
             let shadow_b = arena::with(|_a| want_b.v);
             job.check("oracle shadow value is zero iff honest", shadow_b.is_zero() == honest, String::new());
         }
+        (Some(res), None) if honest => {
+            // the verifier's challenge sequence is not the expected y, z, u, x, w, u*, r: acceptance of the honest
+            // proof needs no oracle (every coefficient must vanish); the schedule itself is C06's / C18's subject
+            let items = lin_eq_items("mega_check", res, &BTreeMap::new());
+            job.groups.push(identity_group("residual_characterisation", "I", "every coefficient of the verifier's combined check is identically 0: the honest proof is accepted (challenge sequence not in the reference order, no oracle used)", items));
+        }
+        (Some(res), None) => {
+            // no challenge split, so no characterisation: search directly for violations the implementation accepts
+            // for every value of its challenges (sat + native reproduction = violation; unsat proves nothing here)
+            let errs: Vec<u32> = arena::with(|a| (0..a.terms.len() as u32).filter(|t| a.var_name(*t).map(|n| n.starts_with("err") || n.starts_with("gerr")).unwrap_or(false)).collect());
+            match rejection_query_group("accepted_violation_search", "", res, &errs, "no assignment with a non-zero error makes the combined check vanish for all challenge values (challenge sequence not in the reference order: search only)") {
+                Ok(mut g) => {
+                    g.only_if_failed = None;
+                    job.groups.push(g);
+                }
+                Err(e) => job.inconclusive.push(format!("late-variable expansion failed: {}", e)),
+            }
+            job.inconclusive.push(format!("the verifier's challenge sequence is not y, z, u, x, w, u*, r: rejection cannot be characterised (verdict {:?})", run.verdict));
+        }
         _ => {
             job.inconclusive.push(format!("no combined-check event / challenge split available (verdict {:?})", run.verdict));
         }
